@@ -71,6 +71,40 @@ def build(ctx):
     return exe, model
 
 
+def run_model_parallel(model, cases, k=4):
+    """the extracted model on the case lines, split over k driver processes (the HEVC parser models cost milliseconds
+    per unit in extracted OCaml with N as a Coq datatype): CTX lines go to every process, W lines round robin;
+    the output lines are returned in the order of the input lines"""
+    import subprocess
+    lines = cases.splitlines()
+    ctxl = [l for l in lines if l.startswith("CTX\t")]
+    ws = [l for l in lines if not l.startswith("CTX\t")]
+    parts = [ws[i::k] for i in range(k)]
+    procs = []
+    for part in parts:
+        p = subprocess.Popen("ulimit -s unlimited 2>/dev/null; exec '%s'" % model, shell=True, stdin=subprocess.PIPE,
+                             stdout=subprocess.PIPE, stderr=subprocess.PIPE)
+        procs.append(p)
+    import threading
+    outs = [None] * k
+
+    def feed(i):
+        o, e = procs[i].communicate(("\n".join(ctxl + parts[i]) + "\n").encode())
+        outs[i] = (procs[i].returncode, o.decode("utf-8", "replace").splitlines(), e.decode("utf-8", "replace"))
+    ths = [threading.Thread(target=feed, args=(i,)) for i in range(k)]
+    for t in ths:
+        t.start()
+    for t in ths:
+        t.join(3000)
+    res = [None] * len(ws)
+    for i in range(k):
+        rc, o, e = outs[i] if outs[i] else (1, [], "driver did not finish")
+        if rc != 0 or len(o) != len(parts[i]):
+            raise common.CheckError("model driver failed rc=%s (%d answers for %d cases): %s" % (rc, len(o), len(parts[i]), e[-2000:]))
+        res[i::k] = o
+    return res
+
+
 def limited(exe, args):
     """the harness (and therefore its worker children) under an address-space limit"""
     return "ulimit -v %d; exec '%s' %s" % (ULIMIT_KB, exe, " ".join(str(a) for a in args))
@@ -100,7 +134,7 @@ def run(ctx):
     if rc != 0:
         raise common.CheckError("harness corr failed: " + e[-1000:])
     lines = cases.splitlines()
-    res = common.run_model(model, cases)
+    res = run_model_parallel(model, cases)
     mism = [l for l in res if not l.startswith("OK ")]
     outside = sum(1 for l in res if l.endswith(" outside-model"))
     distinct = len(set(l.split("\t", 2)[2] for l in lines if "\t" in l))
